@@ -79,6 +79,15 @@ def run(tier, seed, replay=None):
     chk.ob("harness solve (several start solutions, jittered copies) exits normally", rc2 == 0, err2[-400:])
     nd2, ng2 = compare_reps(chk, runs2, cases2)
     chk.ob("4 repetitions with 2-4 start solutions and perturbed goroutine timing identical on %d inputs" % ng2, nd2 == 0)
+    # initial stops: several initial units per vehicle (the order in which NewSolution books them must not vary), single-stop units only
+    n3 = 25 if tier == "quick" else 400
+    cases3 = S.make_solve_cases(seed * 31 + 121212, n3, lambda rng, m: dict(settings(rng, m), repeat=5, starts=0, iterations=150),
+                                feats={"precedence": False, "initial": True, "groups": False, "fixed_p": 0.2, "capacity": False, "windows": False})
+    runs3, rc3, err3 = S.run_solve(cases3, "c12i_" + tier, timeout=3000)
+    chk.ob("harness solve (initial stops) exits normally", rc3 == 0, err3[-400:])
+    nd3, ng3 = compare_reps(chk, runs3, cases3)
+    chk.ob("5 repetitions identical on %d inputs with initial stops (%d with two or more initial stops on a vehicle)"
+           % (ng3, sum(1 for c in cases3 if any(len(ve.get("initial") or []) >= 2 for ve in c["model"]["vehicles"]))), nd3 == 0)
     multi = sum(1 for c in cases if any(len(u["orders"]) > 1 for u in c["model"]["units"]))
     chk.ev.cov.update({
         "evaluations": len(runs), "distinct_nontrivial": multi,
